@@ -440,7 +440,8 @@ def correspond(ck, cases, max_report=3):
         ck.case(json.dumps(c['desc'], default=str, sort_keys=True), nt,
                 sample={'site': c['site'], 'input': c['desc'], 'model': repr(m)[:300], 'impl': repr(i)[:300]})
         ck.count('site:' + c['site'])
-        ck.count('model_result:' + (m[0] if m[0] == 'ok' else m[1]))
+        mr = c['res_of'](m) if c.get('res_of') else m
+        ck.count('model_result:' + (mr[0] if mr[0] == 'ok' else mr[1]))
         eq = c.get('eq') or (lambda a, b: a == b)
         agree = eq(m, i)
         bad = c['oracle'](i) if c.get('oracle') else None
